@@ -145,6 +145,18 @@ def gen_message(rng, idx=0):
     if shape.startswith("mixed") or shape == "atts-only":
         k = rng.choice([1, 1, 2, 3]) if shape != "mixed-plain" or rng.random() < 0.8 else 0
         for _ in range(k):
+            if rng.random() < 0.2:
+                # "forward as attachment": another message attached as message/rfc822 (single part or multipart)
+                inner = EmailMessage(policy=policy.default.clone(linesep="\n"))
+                inner["From"], inner["To"], inner["Subject"] = "inner@x.org", "t@x.org", rng.choice(["inner message", "Re: inner", "x" * rng.randrange(1, 9)])
+                inner["Date"] = "Mon, 01 Jan 2024 10:00:00 +0000"
+                inner.set_content(rng.choice(["inner body text\nsecond line\n", "short\n", "inner " * rng.randrange(1, 7) + "\n"]))
+                if rng.random() < 0.5:
+                    inner.add_alternative("<p>inner html</p>", subtype="html")
+                fname = rng.choice(["forwarded.eml", "original message.eml"])
+                m.add_attachment(inner, filename=fname)
+                atts.append((fname, "message/rfc822", inner.as_bytes()))
+                continue
             name, mt, st, data = rng.choice(DOCS)
             if mt == "text":
                 # keep the exact bytes: attach as bytes with an explicit text type
@@ -282,6 +294,8 @@ def compare(result, t, kind):
     # 7bit bodies altogether (iso-2022-jp stays as escape sequences); reported under `lib:` and not attributed to the glue
     lib = kind == "eml" and (t.get("shape") == "unknown-charset" or (t.get("charset") == "iso-2022-jp" and t.get("cte") == "7bit"))
     pre = "lib:mailparser:" if lib else ""
+    if any(mt_ == "message/rfc822" for (_n, mt_, _d) in t["attachments"]):
+        pre = "known:attached-message:"        # recorded finding: the text of an attached message leaks into the bodies
     chk(pre + "body_plain", _norm_text(t["plain"]), _norm_text(result.body_plain))
     chk(pre + "body_html", _norm_text(t["html"]), _norm_text(result.body_html))
     got = [(a.filename, a.mime_type, a.data.getvalue()) for a in result.attachments]
@@ -415,7 +429,8 @@ def differential(seed=0, n=120, stop_at=None):
                     add(f"agree:{f}", {"raw": raw.decode("latin-1"), "eml": _addr_list(getattr(a, f)), "mbox": _addr_list(getattr(b, f))})
             if (a.from_email.name, a.from_email.address) != (b.from_email.name, b.from_email.address):
                 add("agree:from_email", {"raw": raw.decode("latin-1"), "eml": str(a.from_email), "mbox": str(b.from_email)})
-            if (t.get("charset"), t.get("cte")) == ("iso-2022-jp", "7bit") or t.get("shape") == "unknown-charset":
+            if (t.get("charset"), t.get("cte")) == ("iso-2022-jp", "7bit") or t.get("shape") == "unknown-charset" \
+                    or any(mt_ == "message/rfc822" for (_n, mt_, _d) in t["attachments"]):
                 pass
             elif _norm_text(a.body_plain) != _norm_text(b.body_plain) or _norm_text(a.body_html) != _norm_text(b.body_html):
                 add("agree:body", {"raw": raw.decode("latin-1"), "eml": _short(a.body_plain), "mbox": _short(b.body_plain)})
@@ -998,7 +1013,28 @@ def w_missing_standard_types():
     return (r is not None, (r or {}).get("inputs"), (r or {}).get("expected"), (r or {}).get("observed"))
 
 
-KNOWN = {"F21-mbox-no-attachments": w_mbox_attachments, "C16-folded-address-headers": w_folded_address_headers,
+def w_attached_message_leak():
+    """A message forwarded as attachment (message/rfc822, Content-Disposition: attachment): its text is not the outer message's body."""
+    from email.message import EmailMessage
+    from email import policy
+    pol = policy.default.clone(linesep="\n")
+    inner = EmailMessage(policy=pol)
+    inner["From"], inner["Subject"], inner["Date"] = "in@x.org", "inner", "Mon, 01 Jan 2024 10:00:00 +0000"
+    inner.set_content("INNER PLAIN\n")
+    inner.add_alternative("<p>INNER HTML</p>", subtype="html")
+    m = EmailMessage(policy=pol)
+    m["From"], m["Subject"], m["Date"] = "a@x.org", "fwd", "Mon, 01 Jan 2024 10:00:00 +0000"
+    m.set_content("outer plain body\n")
+    m.add_attachment(inner, filename="forwarded.eml")
+    raw = m.as_bytes()
+    r = run_mbox(mbox_bytes([raw]))[0]
+    e = run_eml(raw)[0]
+    got = {"mbox": (r.body_plain, r.body_html), "eml": (e.body_plain, e.body_html)}
+    want = {"mbox": ("outer plain body", ""), "eml": ("outer plain body", "")}
+    return got != want, {"message": raw.decode("latin-1")}, want, got
+
+
+KNOWN = {"C16-attached-message-body-leak": w_attached_message_leak, "F21-mbox-no-attachments": w_mbox_attachments, "C16-folded-address-headers": w_folded_address_headers,
          "C16-standard-mime-types-missing": w_missing_standard_types}
 RECORDED_SHAPES = ("folded-quoted-names",)       # legacy variants that only restate a recorded finding
 
@@ -1059,7 +1095,7 @@ def find(req):
 def _recorded(cat):
     """Categories that are not evidence against the glue: a recorded finding (mbox results carry no attachments), decoding
     done by the library (`lib:`), artefacts of the stdlib generator (`~`)."""
-    return cat in ("mbox:attachments", "agree:attachments") or ":lib:" in cat or cat.startswith(("lib:", "~"))
+    return cat in ("mbox:attachments", "agree:attachments") or ":lib:" in cat or ":known:" in cat or cat.startswith(("lib:", "~", "known:"))
 
 
 def rerun(stored):
